@@ -6,6 +6,7 @@ package main
 import (
 	"fmt"
 	"math/big"
+	"strconv"
 	"strings"
 )
 
@@ -56,6 +57,7 @@ type TermFactory struct {
 	next   int
 	intern map[string]*Term
 	T, F   *Term
+	bytes  [256]*Term
 }
 
 func NewTermFactory() *TermFactory {
@@ -66,25 +68,34 @@ func NewTermFactory() *TermFactory {
 }
 
 func (f *TermFactory) key(t *Term) string {
-	var sb strings.Builder
-	sb.WriteString(t.Op)
-	sb.WriteByte('|')
-	sb.WriteString(t.Sort.String())
+	b := make([]byte, 0, 48)
+	b = append(b, t.Op...)
+	b = append(b, '|', byte('0'+t.Sort.K))
+	b = strconv.AppendInt(b, int64(t.Sort.W), 10)
 	if t.C != nil {
-		sb.WriteByte('|')
-		sb.WriteString(t.C.String())
+		b = append(b, '|')
+		if t.C.IsUint64() {
+			b = strconv.AppendUint(b, t.C.Uint64(), 16)
+		} else {
+			b = append(b, 'x')
+			b = t.C.Append(b, 16)
+		}
 	}
 	if t.Name != "" {
-		sb.WriteByte('|')
-		sb.WriteString(t.Name)
+		b = append(b, '|')
+		b = append(b, t.Name...)
 	}
 	if t.P1 != 0 || t.P2 != 0 {
-		fmt.Fprintf(&sb, "|%d,%d", t.P1, t.P2)
+		b = append(b, '|')
+		b = strconv.AppendInt(b, int64(t.P1), 10)
+		b = append(b, ',')
+		b = strconv.AppendInt(b, int64(t.P2), 10)
 	}
 	for _, a := range t.Args {
-		fmt.Fprintf(&sb, " %d", a.ID)
+		b = append(b, ' ')
+		b = strconv.AppendInt(b, int64(a.ID), 10)
 	}
-	return sb.String()
+	return string(b)
 }
 
 func (f *TermFactory) mk(t *Term) *Term {
@@ -116,8 +127,18 @@ func (f *TermFactory) BVConst(v *big.Int, w int) *Term {
 	x := new(big.Int).And(v, mask(w)) // big.Int And on negative uses two's complement semantics
 	return f.mk(&Term{Sort: BVSort(w), Op: "const", C: x})
 }
-func (f *TermFactory) BVu(v uint64, w int) *Term { return f.BVConst(new(big.Int).SetUint64(v), w) }
-func (f *TermFactory) BVi(v int64, w int) *Term  { return f.BVConst(big.NewInt(v), w) }
+func (f *TermFactory) BVu(v uint64, w int) *Term {
+	if w == 8 && v < 256 {
+		if t := f.bytes[v]; t != nil {
+			return t
+		}
+		t := f.BVConst(new(big.Int).SetUint64(v), w)
+		f.bytes[v] = t
+		return t
+	}
+	return f.BVConst(new(big.Int).SetUint64(v), w)
+}
+func (f *TermFactory) BVi(v int64, w int) *Term { return f.BVConst(big.NewInt(v), w) }
 func (f *TermFactory) IntConst(v *big.Int) *Term {
 	return f.mk(&Term{Sort: IntSort, Op: "const", C: new(big.Int).Set(v)})
 }
